@@ -172,7 +172,7 @@ func probedClusterChoices(dist comet.Distance, pq []float32, centroids [][]float
 
 // expectation describes what a complete listing must look like for one query.
 type expectation struct {
-	universes []map[uint32]bool                   // legal searched sets (nil slice = soundness only)
+	universes []map[uint32]bool                  // legal searched sets (nil slice = soundness only)
 	scoreFn   func(id uint32) (float64, float64) // expected score and tolerance
 	note      string
 }
